@@ -137,7 +137,9 @@ class Inc:
             return self.text_arg
         arg = b'|'.join(f.arg for f in self.files)
         if self.special == 'error':
-            return b'!' + arg
+            # every other time the function also hands back a partial list together with its error ('!!'): same observable
+            # behaviour, but the library has a list to release
+            return (b'!!' if len(arg) % 2 else b'!') + (arg if arg else b'x')
         if self.special == 'null':
             return b'?' + arg
         if self.special == 'empty':
